@@ -609,15 +609,19 @@ func (txn *KVTxn) InitPipelinedMemDB() error {
 	// generation is increased when the memdb is flushed to kv store.
 	// note the first generation is 1, which can mark pipelined dml's lock.
 	flushedKeys, flushedSize := 0, 0
+	// flushFailed latches a flush failure. The ttl manager can only be closed once it is running, which is not the
+	// case when the first flush fails; later flushes and the commit must fail nevertheless.
+	flushFailed := false
 	pipelinedMemDB := unionstore.NewPipelinedMemDB(func(ctx context.Context, keys [][]byte) (map[string]tikv.ValueEntry, error) {
 		return txn.snapshot.BatchGetWithTier(ctx, keys, txnsnapshot.BatchGetBufferTier, tikv.BatchGetOptions{})
 	}, func(generation uint64, memdb *unionstore.MemDB) (err error) {
-		if atomic.LoadUint32((*uint32)(&txn.committer.state)) == uint32(stateClosed) {
+		if flushFailed || atomic.LoadUint32((*uint32)(&txn.committer.state)) == uint32(stateClosed) {
 			return errors.New("ttl manager is closed")
 		}
 		startTime := time.Now()
 		defer func() {
 			if err != nil {
+				flushFailed = true
 				txn.committer.close()
 			}
 			flushedKeys += memdb.Len()
